@@ -402,14 +402,14 @@ common::register! {
     q_app = app => 320,
     q_unknown = unknown => 320,
     q_sdes_item = sdes_item => 320,
-    q_sdes_chunk_0 = sdes_chunk::<_, 0, 16> => 320,
-    q_sdes_chunk_2 = sdes_chunk::<_, 2, 536> => 320,
-    q_sdes_0 = sdes::<_, 0, 0, 268> => 320,
-    q_sdes_1x1 = sdes::<_, 1, 1, 536> => 320,
-    q_sdes_2x1 = sdes::<_, 2, 1, 800> => 320,
-    q_sdes_1x2 = sdes::<_, 1, 2, 800> => 320,
-    t_sdes_31x0 = sdes::<_, 31, 0, 516> => 320,
-    t_sdes_32x0 = sdes::<_, 32, 0, 520> => 320,
+    q_sdes_chunk_0 = sdes_chunk::<_, 0, 16> => 2,
+    q_sdes_chunk_2 = sdes_chunk::<_, 2, 536> => 4,
+    q_sdes_0 = sdes::<_, 0, 0, 268> => 2,
+    q_sdes_1x1 = sdes::<_, 1, 1, 536> => 3,
+    q_sdes_2x1 = sdes::<_, 2, 1, 800> => 4,
+    q_sdes_1x2 = sdes::<_, 1, 2, 800> => 4,
+    t_sdes_31x0 = sdes::<_, 31, 0, 516> => 33,
+    t_sdes_32x0 = sdes::<_, 32, 0, 520> => 34,
     q_tfb_pli = fb_pli::<_, true> => 2,
     q_pfb_pli = fb_pli::<_, false> => 2,
     q_tfb_sli = fb_sli::<_, true, 1> => 2,
@@ -444,11 +444,11 @@ common::register! {
     t_rr_3 = rr::<_, 3, 348> => 320,
     t_bye_1 = bye::<_, 1, 540> => 320,
     t_bye_3 = bye::<_, 3, 548> => 320,
-    t_sdes_chunk_1 = sdes_chunk::<_, 1, 276> => 320,
-    t_sdes_chunk_3 = sdes_chunk::<_, 3, 800> => 320,
-    t_sdes_1x3 = sdes::<_, 1, 3, 1060> => 320,
-    t_sdes_2x2 = sdes::<_, 2, 2, 1320> => 320,
-    t_sdes_3x1 = sdes::<_, 3, 1, 1060> => 320,
+    t_sdes_chunk_1 = sdes_chunk::<_, 1, 276> => 3,
+    t_sdes_chunk_3 = sdes_chunk::<_, 3, 800> => 5,
+    t_sdes_1x3 = sdes::<_, 1, 3, 1060> => 5,
+    t_sdes_2x2 = sdes::<_, 2, 2, 1320> => 4,
+    t_sdes_3x1 = sdes::<_, 3, 1, 1060> => 5,
 }
 
 common::register_hashmap! {
